@@ -156,8 +156,18 @@ type dlEntry struct {
 
 // c10scenario: main runs a history chosen by the explorer; with reader=true a
 // second thread sits in Read while main acts.
-func c10scenario(kind string, steps, bound int, reader bool, go123 bool) *explore.Scenario {
+// c10churn: the deadline is changed back and forth (short future / zero / past) and then used, at a higher
+// deviation bound than the full alphabet affords: expiry callbacks that are dispatched but have not run yet
+// overlap the following Set calls.
+var c10churnOps = []string{"SRD(zero)", "SRD(past)", "SRD(+10ms)", "Read"}
+
+func c10scenario(kind string, steps, bound int, reader bool, go123 bool, alphabet ...[]string) *explore.Scenario {
+	ops := c10ops
 	name := fmt.Sprintf("rd %s %d steps", kind, steps)
+	if len(alphabet) > 0 {
+		ops = alphabet[0]
+		name += fmt.Sprintf(" over %v", ops)
+	}
 	if reader {
 		name += " +blocked-reader"
 	}
@@ -243,8 +253,8 @@ func c10scenario(kind string, steps, bound int, reader bool, go123 bool) *explor
 				})
 			}
 			for i := 0; i < steps; i++ {
-				k := zzvsched.Choose(len(c10ops))
-				op := c10ops[k]
+				k := zzvsched.Choose(len(ops))
+				op := ops[k]
 				if op == "Read" && (reader || (avail == 0 && (cur() == 0 || cur() == 1<<62-1))) {
 					op = "skip" // would block forever, legitimately
 				}
@@ -362,7 +372,7 @@ func fmtDls(d []dlEntry) string {
 }
 
 func init() {
-	register(&Check{ID: "C10",
+	register(&Check{ID: "C10", YieldOnRelease: true,
 		Scenarios: func(tier string) []*explore.Scenario {
 			var out []*explore.Scenario
 			for _, k := range c10kinds {
@@ -374,6 +384,9 @@ func init() {
 					out = append(out, c10scenario(k, 4, 1, false, false))
 					out = append(out, c10scenario(k, 3, 2, true, false))
 					out = append(out, c10scenario(k, 4, 1, true, false))
+				}
+				if k != "bridge" {
+					out = append(out, c10scenario(k, 4, 2, false, false, c10churnOps))
 				}
 				if strings.HasPrefix(k, "vnet") {
 					out = append(out, c10scenario(k, 4, 0, false, true))
